@@ -129,7 +129,7 @@ theorem createEnter_tail_same (ro : Bool) (self : Addr) (value : Nat) (addr : Ad
         Entry.fail (w1.addAccess addr) Err.collision
       else
         Entry.enter (w1.addAccess addr)
-          ((((w1.addAccess addr).createAccount addr).setNonce addr 1).transfer self addr value) addr ro true) := by
+          ((((w1.addAccess addr).createAccount addr).setNonce addr 1).transfer self addr value) addr ro .code) := by
   have h2 := h0.trans (World.same_addAccess w1 addr)
   split
   · exact h2
@@ -152,27 +152,30 @@ theorem createEnter_same (env : Env) (depth : Nat) (ro : Bool) (self : Addr) (va
 
 variable {rv : World → World → World}
 
+theorem runCallee_extend (callee : Callee) (pe : Option Err) (k : Nat → Bool → Addr → World → Result)
+    (hk : ∀ d r s w0, LogsExtend w0 (k d r s w0).world) (depth : Nat) (ro : Bool) (self : Addr) (w : World) :
+    LogsExtend w (runCallee callee pe k depth ro self w).world := by
+  cases callee
+  · exact LogsExtend.refl w
+  · exact hk _ _ _ _
+  · exact LogsExtend.refl w
+
 theorem callFrameK_extend (env : Env) (hrv : RevertRestoresObs env.rv) (hkc : RevertKeepsTxContext env.rv)
     (depth : Nat) (ro : Bool) (self : Addr) (kind : CallKind) (target : Addr) (value : Nat)
-    (k : Nat → Bool → Addr → World → Result) (hk : ∀ d r s w0, LogsExtend w0 (k d r s w0).world) (w : World) :
-    LogsExtend w (callFrameK env depth ro self kind target value k w).world := by
+    (k : Nat → Bool → Addr → World → Result) (pe : Option Err)
+    (hk : ∀ d r s w0, LogsExtend w0 (k d r s w0).world) (w : World) :
+    LogsExtend w (callFrameK env depth ro self kind target value k pe w).world := by
   have hs := callEnter_same env depth ro self kind target value w
   unfold callFrameK
   cases h : callEnter env depth ro self kind target value w with
   | fail w' e => rw [h] at hs; exact LogsExtend.of_same hs
   | skip w' => rw [h] at hs; exact LogsExtend.of_same hs
-  | enter saved w' self' ro' exec =>
+  | enter saved w' self' ro' callee =>
     rw [h] at hs
     simp only [callExit_world']
-    cases exec
-    · simp only [Bool.false_eq_true, ↓reduceIte]
-      split
-      · exact LogsExtend.revert hrv hkc _ (LogsExtend.of_same hs.1)
-      · exact LogsExtend.of_same hs.2
-    · simp only [↓reduceIte]
-      split
-      · exact LogsExtend.revert hrv hkc _ (LogsExtend.of_same hs.1)
-      · exact (LogsExtend.of_same hs.2).trans (hk _ _ _ _)
+    split
+    · exact LogsExtend.revert hrv hkc _ (LogsExtend.of_same hs.1)
+    · exact (LogsExtend.of_same hs.2).trans (runCallee_extend callee pe k hk _ _ _ _)
 where callExit_world' : ∀ (kind : CallKind) (saved : World) (r : Result),
     (callExit env kind saved r).world = if r.err.isSome then env.rv saved r.world else r.world := fun _ _ _ => rfl
 
@@ -182,8 +185,9 @@ namespace Rangers.Model.Evm12
 
 theorem authFrameK_extend (env : Env) (hrv : RevertRestoresObs env.rv) (hkc : RevertKeepsTxContext env.rv)
     (depth : Nat) (ro : Bool) (au : Option Addr) (n : Nat) (target : Addr) (value : Nat)
-    (k : Nat → Bool → Addr → World → Result) (hk : ∀ d r s w0, LogsExtend w0 (k d r s w0).world) (w : World) :
-    LogsExtend w (authFrameK env depth ro au n target value k w).world := by
+    (k : Nat → Bool → Addr → World → Result) (pe : Option Err)
+    (hk : ∀ d r s w0, LogsExtend w0 (k d r s w0).world) (w : World) :
+    LogsExtend w (authFrameK env depth ro au n target value k pe w).world := by
   unfold authFrameK
   cases au with
   | none => exact LogsExtend.refl w
@@ -195,18 +199,12 @@ theorem authFrameK_extend (env : Env) (hrv : RevertRestoresObs env.rv) (hkc : Re
       cases h : authEnter env depth ro a target value w with
       | fail w' e => rw [h] at hs; exact LogsExtend.of_same hs
       | skip w' => rw [h] at hs; exact LogsExtend.of_same hs
-      | enter saved w' self' ro' exec =>
+      | enter saved w' self' ro' callee =>
         rw [h] at hs
         simp only [authExit]
-        cases exec
-        · simp only [Bool.false_eq_true, ↓reduceIte]
-          split
-          · exact LogsExtend.revert hrv hkc _ (LogsExtend.of_same hs.1)
-          · exact LogsExtend.of_same hs.2
-        · simp only [↓reduceIte]
-          split
-          · exact LogsExtend.revert hrv hkc _ (LogsExtend.of_same hs.1)
-          · exact (LogsExtend.of_same hs.2).trans (hk _ _ _ _)
+        split
+        · exact LogsExtend.revert hrv hkc _ (LogsExtend.of_same hs.1)
+        · exact (LogsExtend.of_same hs.2).trans (runCallee_extend callee pe k hk _ _ _ _)
 
 theorem createStored_extend (w : World) (addr : Addr) (r : Result) (hr : LogsExtend w r.world) :
     LogsExtend w (createStored addr r).1 := by
@@ -284,7 +282,7 @@ theorem run_extend (env : Env) (hrv : RevertRestoresObs env.rv) (hkc : RevertKee
     intro depth ro self w clogs tr
     rw [run]; split
     · exact LogsExtend.refl w
-    · exact (callFrameK_extend env hrv hkc depth ro self kind target value _
+    · exact (callFrameK_extend env hrv hkc depth ro self kind target value _ _
         (fun d r s w0 => ihb d r s w0 [] []) w).trans (ihr _ _ _ _ _ _)
   | create id two salt value init rest ihb ihr =>
     intro depth ro self w clogs tr
@@ -299,7 +297,7 @@ theorem run_extend (env : Env) (hrv : RevertRestoresObs env.rv) (hkc : RevertKee
     rw [run]; split
     · exact LogsExtend.refl w
     · exact ((LogsExtend.of_same (World.same_addAccess w target)).trans
-        (authFrameK_extend env hrv hkc depth ro au n target value _
+        (authFrameK_extend env hrv hkc depth ro au n target value _ _
           (fun d r s w0 => ihb d r s w0 [] []) _)).trans (ihr _ _ _ _ _ _)
   | stake a rest ih =>
     intro depth ro self w clogs tr
